@@ -211,11 +211,14 @@ func (s *Stream) LogResponse(id string, res *http.Response) error {
 		}
 	}
 
-	res.Body = &bodyLogger{
-		s:    s,
-		id:   id,
-		mt:   Response,
-		body: res.Body,
+	// Leave an absent body alone.
+	if res.Body != nil {
+		res.Body = &bodyLogger{
+			s:    s,
+			id:   id,
+			mt:   Response,
+			body: res.Body,
+		}
 	}
 
 	return nil
